@@ -4,8 +4,9 @@ Theorems: coq/Props/C06.v (the SET of result tables by producing step, and 'ever
 schedule-independent for every plan).  Table CONTENTS: compared on the real mloda across
   SYNC  vs  THREADING under the gating scheduler (PRNG release orders; histories replayed in Coq by chk_gated)
         vs  MULTIPROCESSING with a long-lived Arrow Flight server (repeated sampling).
-A plan is classified in Coq by conflict_free (two steps not ordered by the wait-for relation touching one object): only
-plans that fail it, or lie in one of the planner-defect domains, may diverge as known findings.
+A plan is classified in Coq by conflict_free (two steps not ordered by the wait-for relation touching one object), narrowed by
+conflict_free_ip && ip_cols_ok (Props/C06inplace.v: unordered steps that are BOTH observed to compute in place on one object and touch
+different columns are no hazard): only plans that fail both, or lie in one of the planner-defect domains, may diverge as known findings.
 """
 from __future__ import annotations
 
@@ -43,8 +44,10 @@ def run(rep: vlib.Reporter, tier: str, seed: int) -> None:
     pr.failed_files += pr2.failed_files + pr3.failed_files
     rep.coverage["trusted_base"] += [
         "Model/Orch.v (orchestrator) is proved mode-independent at the level of WHICH steps run and WHICH results are collected; "
-        "the data plane (shared cfw.data read-modify-write, Flight upload/download) is not modelled: contents are compared on "
-        "the implementation, and conflict_free (Model/OrchCheck.v) only classifies plans",
+        "the data plane is modelled for merge-free plans (Model/DataPlane.v, DataPlaneConc.v: replacing steps; DataPlaneInPlace.v: "
+        "in-place steps on a heap of mutable frames - one atomic event per inserted column); Flight upload/download is not modelled: "
+        "contents are compared on the implementation; conflict_free / conflict_free_ip (Model/OrchCheck.v) classify plans from "
+        "footprints and result styles OBSERVED on the SYNC run and the written/read columns of the generated spec",
         "gating scheduler at calculation/transform/merge entry; MULTIPROCESSING schedules are sampled, not controlled",
         "Arrow Flight is treated as a reliable key-value store"]
     big = tier == "thorough"
@@ -162,7 +165,8 @@ def run(rep: vlib.Reporter, tier: str, seed: int) -> None:
     rep.add("traces_validated_against_impl", len(gated_terms))
     rep.add("rule", "request DAGs as in C01; per spec: SYNC reference, n gated THREADING runs with PRNG release order, k "
                     "MULTIPROCESSING runs against one long-lived Flight server; multisets of result tables compared. non-trivial = "
-                    "a gated run with >= 2 concurrently enabled steps, or an MP run of a plan with > 2 steps")
+                    "a gated run with >= 2 concurrently enabled steps, or an MP run of a plan with > 2 steps. Families of unordered in-place "
+                    "siblings (styles inplace / series, on Pandas or PythonDict) under one consumer: EVERY finish order of the siblings")
     if recs:
         rep.sample({"spec": recs[0]["spec"], "gated": [[rd.get("released") for rd in g["rounds"]] for g in recs[0]["gated"]]})
     if not pr.ok and not found:
